@@ -185,6 +185,9 @@ func c02Roundtrip(c *core.Ctx, k *core.Case) {
 			c.Fail(k, "encode-modifies-message:"+def.Name+":"+where, fmt.Sprintf("after encoding, the %s value differs from its snapshot at %s (header view %x -> %x)", def.Name, where, h1, h2))
 			return
 		}
+		if _, owned := ownedTwice(func() []byte { b, _ := m.PlainNasEncode(); return b }); owned != "" {
+			c.Fail(k, "result-not-owned:PlainNasEncode", owned)
+		}
 		if again, err := m.PlainNasEncode(); err != nil || !bytes.Equal(again, wire) {
 			c.Fail(k, "encode-not-repeatable:"+def.Name, fmt.Sprintf("a third encode of the same %s gives %s (err %v), the first gave %s", def.Name, hx(again), err, hx(wire)))
 		}
@@ -496,6 +499,9 @@ func c03FixedPoint(c *core.Ctx, k *core.Case) {
 	mn := "?"
 	if len(names) == 1 {
 		mn = names[0]
+	}
+	if _, owned := ownedTwice(func() []byte { b, _ := d1.PlainNasEncode(); return b }); owned != "" {
+		c.Fail(k, "result-not-owned:PlainNasEncode", owned)
 	}
 	e1, err := d1.PlainNasEncode()
 	if err != nil {
